@@ -346,6 +346,9 @@ def explore_case(
                 inconcl.append("path aborted: " + res.aborted)
             return
         ctx = res.value
+        hv = [d for k, d in res.events if k == "havoc-branch"]
+        if hv and not any(i.kind == "uninitialised" for i in ctx.issues):
+            ctx.fail("uninitialised", "a branch depends on memory the operation never wrote: %s" % hv[0][:80])
         for iss in ctx.issues:
             raw.append((iss, list(res.decisions)))
         if len(path_log) < 3:
